@@ -3,10 +3,11 @@
 # worktree of /repo (never to /repo itself) and expects the listed checks to exit 1 with a VIOLATION.
 # Usage: ./selftest.sh [pattern]   Results: selftest-results.txt
 cd "$(dirname "$0")"
-WT=/var/tmp/vf-selftest-wt
-OUT=selftest-results.txt
+# SHARD=i/n runs every n-th item (several shards side by side; results in /var/tmp/selftest-results-<i>.txt)
+if [ -n "${SHARD:-}" ]; then SHARD_I=${SHARD%%/*}; SHARD_N=${SHARD##*/}; WT=/var/tmp/vf-selftest-wt-$SHARD_I; OUT=/var/tmp/selftest-results-$SHARD_I.txt; LIST=/var/tmp/vf-selftest-list-$SHARD_I.txt; TMPOUT=/var/tmp/vf-selftest-out-$SHARD_I.txt
+else WT=/var/tmp/vf-selftest-wt; OUT=selftest-results.txt; LIST=/var/tmp/vf-selftest-list.txt; TMPOUT=/var/tmp/vf-selftest-out.txt; SHARD_I=0; SHARD_N=1; fi
 : > $OUT
-python3 - "$1" <<'PY' > /tmp/vf-selftest-list.txt
+python3 - "$1" <<'PY' | awk -v i=$SHARD_I -v n=$SHARD_N 'NR % n == i' > $LIST
 import json,sys,glob,os
 pat=sys.argv[1] if len(sys.argv)>1 else ''
 idx=json.load(open('mutants/index.json'))
@@ -21,10 +22,10 @@ while read patch checks; do
   git -C /repo worktree add -q --detach $WT HEAD || exit 2
   if ! git -C $WT apply "$PWD/$patch" 2>/dev/null; then echo "$patch: PATCH-DOES-NOT-APPLY" | tee -a $OUT; continue; fi
   for c in $checks; do
-    VERIF_REPO=$WT VF_NO_EVIDENCE=1 ./vf check $c > /tmp/vf-selftest-out.txt 2>&1; rc=$?
-    n=$(grep -c '^VIOLATION' /tmp/vf-selftest-out.txt)
-    first=$(grep -A1 '^VIOLATION' /tmp/vf-selftest-out.txt | grep 'key:' | head -1 | cut -c1-140)
+    VERIF_REPO=$WT VF_NO_EVIDENCE=1 ./vf check $c > $TMPOUT 2>&1; rc=$?
+    n=$(grep -c '^VIOLATION' $TMPOUT)
+    first=$(grep -A1 '^VIOLATION' $TMPOUT | grep 'key:' | head -1 | cut -c1-140)
     echo "$patch $c exit=$rc violations=$n $first" | tee -a $OUT
   done
-done < /tmp/vf-selftest-list.txt
+done < $LIST
 git -C /repo worktree remove --force $WT 2>/dev/null; rm -rf $WT
